@@ -66,6 +66,47 @@ func genPMap(cfg Config, emit func(string, bool, []string)) {
 		add("mnew")
 		nm, ns := 1, 0
 		inTxn := false
+		if c%10 == 3 {
+			// one family of versions built linearly (they share one recycled transaction object), then
+			// the recycled transaction is dropped (a delete that shrinks an old version to a single
+			// element, or a map transaction's commit) and old and new versions are written in turn
+			ks := []string{"a", "b", "c", "d", "e"}
+			r.Shuffle(len(ks), func(i, j int) { ks[i], ks[j] = ks[j], ks[i] })
+			for i, k := range ks[:4] {
+				add("mset %d %s %d", nm-1, hx([]byte(k)), i+1)
+				nm++
+			}
+			m1, m2, m4 := nm-4, nm-3, nm-1
+			_ = m1
+			for round := 0; round < 2; round++ {
+				if r.IntN(2) == 0 {
+					add("mdel %d %s", m2, hx([]byte(ks[r.IntN(2)])))
+					nm++
+				} else {
+					add("mtxn %d", m4)
+					add("tset %s 5", hx([]byte(ks[4])))
+					add("tcommit")
+					nm++
+				}
+				add("mset %d %s 9", []int{m1, m2}[r.IntN(2)], hx([]byte("x")))
+				nm++
+				switch r.IntN(3) {
+				case 0:
+					add("mset %d %s 40", m4, hx([]byte(ks[3])))
+				case 1:
+					add("mdel %d %s", m4, hx([]byte(ks[2])))
+				case 2:
+					add("mset %d %s 41", m4, hx([]byte("y")))
+				}
+				nm++
+				for i := 0; i < nm; i++ {
+					add("mall %d", i)
+					add("mlen %d", i)
+				}
+				add("mget %d %s", m4, hx([]byte(ks[3])))
+				add("meq %d %d", m4, nm-1)
+			}
+		}
 		if c%10 == 7 {
 			// threshold walker: a key that is a prefix of `top` others, which are removed one by one
 			// across the node-size boundaries (49/48, 17/16, 5/4), in a Map and in a Set
